@@ -343,6 +343,10 @@ def check(case) -> Result:
         if not isinstance(exc, Exception):
             res.harness_error = f"non-Exception raised: {exc!r}"
             return res
+        if case["fault"] is None and case["stub"] in ("ok", "html_with_files", "real_ok", "real_html_files"):
+            # nothing was injected and the converter did its job: the export has to succeed (missing parent directories
+            # of any depth are created)
+            res.fail("export_fails_without_fault", tag, f"{type(exc).__name__}: {str(exc)[:160]}")
         if changed:
             res.fail("failed_export_modified_existing", tag, f"{type(exc).__name__}: changed {sorted(changed)[:3]}")
         extra = new_entries - parent_dirs
